@@ -536,6 +536,9 @@ func runRecipe(rc Recipe) (res Result) {
 	if strings.HasPrefix(rc.Kind, "cfg") {
 		return runConfig(rc)
 	}
+	if _, _, ok := recvKind(rc.Kind); ok {
+		return runRecv(rc)
+	}
 	et := etypeByName(rc.Type)
 	kind := baseKind(rc.Kind)
 	res.Key = rc.Kind + "/" + rc.Type
